@@ -4,6 +4,7 @@ package bfe_http2
 
 import (
 	"bytes"
+	"io"
 	"io/ioutil"
 
 	"github.com/baidu/go-lib/gotrack"
@@ -16,6 +17,12 @@ import (
 // readMetaFrame -> checkPseudos -> serverConn.newWriterAndRequest.  code: 0 ok, 1 rejected by the
 // framer, 2 rejected by newWriterAndRequest.
 func VerifC25Request(names, values []string) (*http.Request, int) {
+	return VerifC25RequestBody(names, values, nil, false)
+}
+
+// VerifC25RequestBody: with open == true the HEADERS / SYN_STREAM frame does not end the stream; body is
+// then delivered through the request body pipe followed by end of stream (as processData does).
+func VerifC25RequestBody(names, values []string, body []byte, open bool) (*http.Request, int) {
 	var hb bytes.Buffer
 	enc := hpack.NewEncoder(&hb)
 	for i := range names {
@@ -23,7 +30,7 @@ func VerifC25Request(names, values []string) (*http.Request, int) {
 	}
 	var wire bytes.Buffer
 	wfr := NewFramer(&wire, nil)
-	if err := wfr.WriteHeaders(HeadersFrameParam{StreamID: 1, BlockFragment: hb.Bytes(), EndStream: true, EndHeaders: true}); err != nil {
+	if err := wfr.WriteHeaders(HeadersFrameParam{StreamID: 1, BlockFragment: hb.Bytes(), EndStream: !open, EndHeaders: true}); err != nil {
 		return nil, 3
 	}
 	fr := NewFramer(ioutil.Discard, &wire)
@@ -36,8 +43,13 @@ func VerifC25Request(names, values []string) (*http.Request, int) {
 	if !ok {
 		return nil, 1
 	}
-	sc := &serverConn{serveG: gotrack.NewGoroutineLock(), remoteAddrStr: "192.0.2.1:1234"}
+	done := make(chan struct{})
+	close(done) // body reads report to the serve loop; there is none: let them fall through
+	sc := &serverConn{serveG: gotrack.NewGoroutineLock(), remoteAddrStr: "192.0.2.1:1234", doneServing: done}
 	st := &stream{id: 1, state: stateHalfClosedRemote}
+	if open {
+		st.state = stateOpen
+	}
 	_, req, err := sc.newWriterAndRequest(st, mh)
 	if err != nil {
 		return nil, 2
@@ -46,6 +58,10 @@ func VerifC25Request(names, values []string) (*http.Request, int) {
 	// serve loop it would block the first body read
 	if rb, ok := req.Body.(*RequestBody); ok {
 		rb.needsContinue = false
+		if open && rb.pipe != nil {
+			rb.pipe.Write(body)
+			rb.pipe.CloseWithError(io.EOF)
+		}
 	}
 	return req, 0
 }
